@@ -11,6 +11,7 @@ import (
 	"path/filepath"
 	"sort"
 	"strings"
+	"sync"
 )
 
 type Stats struct {
@@ -48,18 +49,34 @@ type Ctx struct {
 	ReplayF string
 }
 
-func (c *Ctx) Thorough() bool         { return c.Tier == "thorough" }
-func (c *Ctx) Count(k string)         { c.Stats.Distribution[k]++ }
-func (c *Ctx) CountN(k string, n int) { c.Stats.Distribution[k] += n }
+func (c *Ctx) Thorough() bool { return c.Tier == "thorough" }
+
+// the recording methods may be called from scenario goroutines running in parallel
+var ctxMu sync.Mutex
+
+func (c *Ctx) Count(k string) {
+	ctxMu.Lock()
+	c.Stats.Distribution[k]++
+	ctxMu.Unlock()
+}
+func (c *Ctx) CountN(k string, n int) {
+	ctxMu.Lock()
+	c.Stats.Distribution[k] += n
+	ctxMu.Unlock()
+}
 
 // NonTrivial records one case with a canonical key; distinct keys are counted.
 func (c *Ctx) NonTrivial(key string) {
+	ctxMu.Lock()
+	defer ctxMu.Unlock()
 	if !c.seen[key] {
 		c.seen[key] = true
 		c.Stats.NonTrivial++
 	}
 }
 func (c *Ctx) Sample(s interface{}) {
+	ctxMu.Lock()
+	defer ctxMu.Unlock()
 	if len(c.Stats.Samples) < 3 {
 		c.Stats.Samples = append(c.Stats.Samples, s)
 	}
@@ -69,7 +86,9 @@ func (c *Ctx) Monitor(sig, what string, cs interface{}) {
 	if len(sig) > 4 && sig[0] == 'C' && sig[3] == '/' && sig[:3] != c.Stats.Property {
 		return
 	}
+	ctxMu.Lock()
 	c.Stats.Monitor = append(c.Stats.Monitor, MonitorFinding{sig, what, cs})
+	ctxMu.Unlock()
 }
 
 // WriteCases writes one Coq cases file: the prelude, `Definition cases := [...]`
